@@ -70,6 +70,8 @@ def optext(op):
         return 'ts?"%s"' % op[1]
     if op[0] == 'unload':
         return 'py: ts.cache.unload_file("%s")' % op[1]
+    if op[0] == 'getmod':
+        return 'r::ts?"%s";r,"z",,(one value per row)  :"the table read back is changed in place, nothing is set"' % op[1]
     return 'py: ts = TableStorage(root)'
 
 
@@ -95,6 +97,13 @@ def do(env, op):
             return ('ok', observe(env.kl(optext(op))))
         if op[0] == 'unload':
             env.st.cache.unload_file(op[1])
+            return ('ok', ('none',))
+        if op[0] == 'getmod':
+            # a program's own copy of a stored table is its own: changing it is not a set
+            r = env.kl('r::ts?"%s"' % op[1])
+            if isinstance(r, Table):
+                env.kl['n'] = [5] * len(r.get_dataframe())
+                env.kl('r,"z",,n')
             return ('ok', ('none',))
         env.open_store()
         return ('ok', ('none',))
@@ -154,6 +163,7 @@ def all_ops():
             ops.append(('set', k, ti))
         ops.append(('get', k))
         ops.append(('unload', k))
+    ops.append(('getmod', 't'))
     ops.append(('get', 'zz'))
     ops.append(('reopen',))
     return ops
@@ -177,6 +187,11 @@ def expand(hist):
                 want = ('ok', ('table', model[op[1]]))
                 if back != want:
                     bad.append(('stored-after-set', _show(back), _show(want)))
+            if op[0] == 'getmod' and got[0] == 'ok':
+                back = do(env, ('get', op[1]))
+                want = expected(model, ('get', op[1]))
+                if back != want:
+                    bad.append(('stored-after-local-change', _show(back), _show(want)))
             bad.extend(invariants(env))
             out['transitions'] += 1
             c = env.st.cache
